@@ -24,6 +24,7 @@ import (
 	"google.golang.org/grpc/credentials/insecure"
 	"google.golang.org/grpc/internal/zzverif/vlib"
 	"google.golang.org/grpc/internal/zzverif/vlib/rawh2"
+	"google.golang.org/grpc/stats"
 	"google.golang.org/grpc/status"
 	"google.golang.org/grpc/test/bufconn"
 )
@@ -36,8 +37,48 @@ type script struct {
 }
 
 type opStep struct {
-	Op string `json:"op"`
-	I  int    `json:"i"`
+	Op     string `json:"op"`
+	I      int    `json:"i"`
+	Inline int    `json:"inline"` // unpark: 1 = while the preceding header/recv is blocked
+}
+
+// gateSH is a stats.Handler that parks the goroutine reporting the next OutPayload (csAttempt.sendMsg reports it
+// after the transport write, outside cs.mu) until the driver releases it.
+type gateSH struct {
+	mu      sync.Mutex
+	armed   bool
+	release chan struct{}
+}
+
+func (g *gateSH) TagRPC(ctx context.Context, _ *stats.RPCTagInfo) context.Context   { return ctx }
+func (g *gateSH) TagConn(ctx context.Context, _ *stats.ConnTagInfo) context.Context { return ctx }
+func (g *gateSH) HandleConn(context.Context, stats.ConnStats)                       {}
+func (g *gateSH) HandleRPC(_ context.Context, st stats.RPCStats) {
+	if _, ok := st.(*stats.OutPayload); !ok {
+		return
+	}
+	g.mu.Lock()
+	armed, rel := g.armed, g.release
+	g.armed = false
+	g.mu.Unlock()
+	if armed {
+		<-rel
+	}
+}
+func (g *gateSH) arm() {
+	g.mu.Lock()
+	g.armed, g.release = true, make(chan struct{})
+	g.mu.Unlock()
+}
+func (g *gateSH) open() {
+	g.mu.Lock()
+	g.armed = false
+	rel := g.release
+	g.release = nil
+	g.mu.Unlock()
+	if rel != nil {
+		close(rel)
+	}
 }
 
 type config struct {
@@ -196,6 +237,13 @@ func (s *server) handle(c net.Conn) {
 				a.recv = append(a.recv, item)
 			}
 			fire := false
+			if a.sc.Trig == "m2" && !a.acted {
+				for _, it := range a.recv {
+					if it[0] == 2 {
+						a.acted, fire = true, true
+					}
+				}
+			}
 			if f.StreamEnded() {
 				a.recv = append(a.recv, []int{0, 0, 0})
 				if a.sc.Trig == "late" && !a.acted {
@@ -240,7 +288,7 @@ func serviceConfig(c config) string {
 	}
 	sc := fmt.Sprintf(`{"methodConfig":[{"name":[{}],"retryPolicy":{"maxAttempts":%d,%s,"retryableStatusCodes":[%s]}}]`, c.MaxAtt, boff, codes)
 	if c.ThrMax > 0 {
-		sc += fmt.Sprintf(`,"retryThrottling":{"maxTokens":%d,"tokenRatio":1}`, c.ThrMax)
+		sc += fmt.Sprintf(`,"retryThrottling":{"maxTokens":%d,"tokenRatio":0.5}`, c.ThrMax)
 	}
 	return sc + "}"
 }
@@ -269,6 +317,13 @@ func runBehaviour(b behaviour, tr *vlib.Trace) {
 	}
 	tr.Emit(map[string]any{"ev": "reset", "maxAtt": b.Cfg.MaxAtt, "cap": b.Cfg.Cap, "codes": b.Cfg.Codes,
 		"bufLimit": b.Cfg.BufLimit, "thrMax": b.Cfg.ThrMax, "boff": b.Cfg.Boff})
+	gate := &gateSH{}
+	for _, op := range b.Ops {
+		if op.Op == "park" {
+			dopts = append(dopts, grpc.WithStatsHandler(gate))
+			break
+		}
+	}
 	cc, err := grpc.NewClient("passthrough:///x", dopts...)
 	if err != nil {
 		tr.Emit(map[string]any{"ev": "panic", "what": "NewClient: " + err.Error()})
@@ -278,14 +333,15 @@ func runBehaviour(b behaviour, tr *vlib.Trace) {
 	// The deadline only bounds executions in which the code under test stops making progress (virtual time).
 	ctx, cancel := context.WithTimeout(context.Background(), time.Second)
 	var cs grpc.ClientStream
-	seen := 0
-	flush := func(op opStep, t0 int64, res string, code int) {
+	seen := 0    // attempts whose "att" line has been emitted
+	rpcBase := 0 // first attempt (server stream index) of the current RPC
+	settle := func() {
 		// let the scripted answers (1 ms after their trigger) arrive and everything settle
 		time.Sleep(10 * time.Millisecond)
 		synctest.Wait()
-		tr.Emit(map[string]any{"ev": "op", "op": op.Op, "i": op.I, "t": t0})
-		srv.mu.Lock()
-		for ; seen < len(srv.atts); seen++ {
+	}
+	attLines := func(upto int) {
+		for ; seen < len(srv.atts) && (upto < 0 || seen < upto); seen++ {
 			a := srv.atts[seen]
 			pt := int64(0)
 			if seen > 0 {
@@ -294,10 +350,26 @@ func runBehaviour(b behaviour, tr *vlib.Trace) {
 			tr.Emit(map[string]any{"ev": "att", "k": a.k + 1, "prev": a.prev, "t": a.t, "pt": pt,
 				"act": a.sc.Act, "code": a.sc.Code, "pb": a.sc.Pb, "trig": a.sc.Trig})
 		}
-		all := make([][][]int, len(srv.atts))
-		for i, a := range srv.atts {
-			all[i] = append([][]int{}, a.recv...)
+	}
+	received := func() [][][]int {
+		all := [][][]int{}
+		for _, a := range srv.atts[rpcBase:] {
+			all = append(all, append([][]int{}, a.recv...))
 		}
+		return all
+	}
+	// flush emits the lines of one finished operation; mark >= 0: a parked SendMsg was released while the
+	// operation was blocked, after `mark` server streams existed (at virtual instant markT).
+	flush := func(op opStep, t0 int64, res string, code int, mark int, markT int64) {
+		settle()
+		tr.Emit(map[string]any{"ev": "op", "op": op.Op, "i": op.I, "t": t0, "inline": op.Inline})
+		srv.mu.Lock()
+		if mark >= 0 {
+			attLines(mark)
+			tr.Emit(map[string]any{"ev": "op", "op": "unpark", "i": 0, "t": markT, "inline": 1})
+		}
+		attLines(-1)
+		all := received()
 		srv.mu.Unlock()
 		tr.Emit(map[string]any{"ev": "ret", "res": res, "code": code, "srv": all})
 	}
@@ -313,7 +385,7 @@ func runBehaviour(b behaviour, tr *vlib.Trace) {
 			}
 		}()
 		switch op.Op {
-		case "start":
+		case "start", "newrpc":
 			var err error
 			cs, err = cc.NewStream(ctx, &grpc.StreamDesc{ClientStreams: true, ServerStreams: true}, "/svc/m",
 				grpc.MaxRetryRPCBufferSize(b.Cfg.BufLimit))
@@ -353,14 +425,81 @@ func runBehaviour(b behaviour, tr *vlib.Trace) {
 		}
 		return "unknown", 0
 	}
-	ops := append([]opStep{{Op: "start"}}, b.Ops...)
-	for _, op := range ops {
+	type result struct {
+		res  string
+		code int
+	}
+	var sendDone chan result // non-nil while a SendMsg goroutine is parked (or has run) and not yet joined
+	unparkAlone := func() {
 		t0 := srv.since()
-		res, code := do(op)
-		flush(op, t0, res, code)
+		gate.open()
+		r := <-sendDone
+		sendDone = nil
+		flush(opStep{Op: "unpark"}, t0, r.res, r.code, -1, 0)
+	}
+	ops := append([]opStep{{Op: "start"}}, b.Ops...)
+	for i := 0; i < len(ops); i++ {
+		op := ops[i]
+		switch {
+		case op.Op == "park":
+			t0 := srv.since()
+			gate.arm()
+			ch := make(chan result, 1)
+			sendDone = ch
+			go func() {
+				res, code := do(opStep{Op: "send", I: op.I})
+				ch <- result{res, code}
+			}()
+			settle()
+			srv.mu.Lock()
+			all := received()
+			srv.mu.Unlock()
+			tr.Emit(map[string]any{"ev": "park", "i": op.I, "t": t0, "srv": all})
+		case op.Op == "unpark":
+			if sendDone != nil {
+				unparkAlone()
+			}
+		case (op.Op == "recv" || op.Op == "header") && i+1 < len(ops) && ops[i+1].Op == "unpark" && ops[i+1].Inline == 1 && sendDone != nil:
+			// the receiver blocks on the current attempt; the parked sender is released meanwhile
+			t0 := srv.since()
+			rch := make(chan result, 1)
+			go func() {
+				res, code := do(op)
+				rch <- result{res, code}
+			}()
+			// Longer than any chain of backoffs: the receiver must be blocked in the transport read of the
+			// current attempt (not in a backoff sleep, which it spends holding cs.mu) when the sender resumes.
+			time.Sleep(400 * time.Millisecond)
+			synctest.Wait()
+			srv.mu.Lock()
+			mark := len(srv.atts)
+			srv.mu.Unlock()
+			markT := srv.since()
+			gate.open()
+			<-sendDone
+			sendDone = nil
+			r := <-rch
+			flush(op, t0, r.res, r.code, mark, markT)
+			i++
+		default:
+			if op.Op == "newrpc" {
+				cancel()
+				settle()
+				ctx, cancel = context.WithTimeout(context.Background(), time.Second)
+				srv.mu.Lock()
+				rpcBase = len(srv.atts)
+				srv.mu.Unlock()
+			}
+			t0 := srv.since()
+			res, code := do(op)
+			flush(op, t0, res, code, -1, 0)
+		}
 		if cs == nil {
 			break
 		}
+	}
+	if sendDone != nil {
+		unparkAlone()
 	}
 	cancel()
 	cc.Close()
